@@ -236,6 +236,8 @@ def items(tier, seed, tx_cls="full", rx_cls="full", pid=PID):
         core.append((link.default_cfg(dyn=dyn, pl=pl, tx_hist="rx0", **base), seed, pid, lens))
     for k in (1, 2, 3):
         core.append((link.default_cfg(dyn=True, pl=32, ack=True, tx_hist="ackpl:%d" % k, **base), seed, pid, lens))
+    for dyn, pl in ((True, 32), (False, 8)):
+        core.append((link.default_cfg(dyn=dyn, pl=pl, tx_hist="power", **base), seed, pid, lens))
     channels = (0, 76, 125) if tier == "quick" else tuple(range(126))
     crcaa = [(2, True)] if lite else [(0, False), (0, True), (1, True), (1, False), (2, True), (2, False)]
     fronts = [(fa, fb)] if lite else [("spidev", "busio"), ("busio", "spidev_pin")]
